@@ -190,3 +190,549 @@ Ltac dupd :=
   | H : context [tid_eqb ?a ?b] |- _ => destruct (tid_eqb_spec a b)
   end.
 
+
+(* ---- the safety invariant ----------------------------------------------------- *)
+
+Definition held (p : jph) : option nat :=
+  match p with JCin | JCmk | JCrel _ => Some 0 | JHold l | JRun l | JBad l | JPost l _ => Some l | _ => None end.
+Definition lockof (p : jph) : option nat :=
+  match p with JCrel l | JAcq l | JHold l | JRun l | JBad l | JPost l _ => Some l | _ => None end.
+Definition runsb (s : state) (t : tid) : bool :=
+  match t with
+  | TJM | TJ _ => match jp s t with JRun _ | JBad _ => true | _ => false end
+  | TC i => match cp s i with COwn | COwnDone => true | _ => false end
+  | _ => false
+  end.
+Definition nofail (p : jph) : Prop :=
+  match p with JBad _ => False | JPost _ true => False | JRel true => False | _ => True end.
+
+Record Inv (c : cfg) (s : state) : Prop := {
+  d_j : forall t, jp s t <> JNone -> t = TJM \/ exists i, t = TJ i /\ i < c_n c;
+  d_c : forall i, c_n c <= i -> cp s i = CInit;
+  p_m : mp s = MNone \/ mp s = M0 -> jp s TJM = JNone;
+  p_c : forall i, jp s (TJ i) <> JNone -> cp s i = CPwait \/ cp s i = CGot \/ cp s i = CDone;
+  m_none : match c_mode c with MForever | MRace => mp s <> MNone | _ => mp s = MNone end;
+  l_a : forall t l, held (jp s t) = Some l -> owner s l = Some t;
+  l_b : forall t l, owner s l = Some t -> held (jp s t) = Some l;
+  t_1 : forall t l, lockof (jp s t) = Some l -> tbl s = Some l;
+  t_2 : match tbl s with Some l => l = 1 /\ nlocks s = 1 | None => nlocks s = 0 end;
+  t_3 : forall t, jp s t = JCmk -> tbl s = None;
+  i_1 : forall t, In t (inside s) -> runsb s t = true;
+  i_2 : forall t, runsb s t = true -> inside s = [t];
+  n_f : forall t, nofail (jp s t);
+  o_1 : c_mode c = MOwn -> forall t, jp s t = JNone;
+  o_2 : c_mode c = MOwn -> forall i, i <> 0 -> cp s i <> CInit -> cp s i <> CDone -> runsb s (TC 0) = true;
+  o_3 : forall i, c_mode c <> MOwn \/ i <> 0 -> cp s i <> COwn /\ cp s i <> COwnDone;
+  o_5 : c_mode c = MOwn -> forall i, cp s i <> CPsub /\ cp s i <> CPwait /\ cp s i <> CClosedP;
+  c_1 : c_mode c = MClosed -> inside s = [] /\ (forall t, jp s t = JNone) /\
+        (forall i, cp s i = CInit \/ cp s i = CBegun \/ cp s i = CClosedP \/ cp s i = CDone);
+  c_2 : forall i, cp s i = CClosedP -> c_mode c = MClosed;
+  r_1 : forall i, match aw s i with AwFin => res s i = Some (expected c i) | _ => res s i = None end;
+  r_2 : forall i, cp s i = CGot -> cres s i = Some (expected c i);
+  r_3 : forall i, (exists l, jp s (TJ i) = JPost l false) \/ jp s (TJ i) = JRel false -> aw s i = AwFin
+}.
+
+Lemma Inv_init : forall c, Inv c (init c).
+Proof.
+  intros c. constructor; simpl; intros; try congruence; auto; try tauto.
+  all: try (destruct (c_mode c); congruence).
+  all: try (destruct (c_form c i); reflexivity).
+  all: try (destruct H as [[l H]|H]; discriminate).
+  all: try (repeat split; auto; discriminate).
+  destruct t; simpl in H; discriminate.
+Qed.
+
+(* rewrite the known phases everywhere *)
+Ltac rw_phases :=
+  repeat match goal with
+  | E : jp ?s ?t = _ |- context [jp ?s ?t] => rewrite E
+  | E : jp ?s ?t = _, H : context [jp ?s ?t] |- _ => lazymatch H with E => fail | _ => rewrite E in H end
+  | E : cp ?s ?t = _ |- context [cp ?s ?t] => rewrite E
+  | E : cp ?s ?t = _, H : context [cp ?s ?t] |- _ => lazymatch H with E => fail | _ => rewrite E in H end
+  | E : mp ?s = _ |- context [mp ?s] => rewrite E
+  | E : mp ?s = _, H : context [mp ?s] |- _ => lazymatch H with E => fail | _ => rewrite E in H end
+  | E : aw ?s ?t = _ |- context [aw ?s ?t] => rewrite E
+  | E : aw ?s ?t = _, H : context [aw ?s ?t] |- _ => lazymatch H with E => fail | _ => rewrite E in H end
+  | E : tbl ?s = _ |- context [tbl ?s] => rewrite E
+  | E : tbl ?s = _, H : context [tbl ?s] |- _ => lazymatch H with E => fail | _ => rewrite E in H end
+  | E : inside ?s = _ |- context [inside ?s] => rewrite E
+  | E : inside ?s = _, H : context [inside ?s] |- _ => lazymatch H with E => fail | _ => rewrite E in H end
+  end.
+
+Ltac fwd := repeat match goal with
+  | H1 : ?P -> _, H2 : ?P |- _ =>
+      lazymatch type of P with Prop => specialize (H1 H2) | _ => fail end
+  | H1 : ?P -> _ |- _ =>
+      lazymatch type of P with Prop => idtac | _ => fail end;
+      let Hp := fresh in
+      assert (Hp : P) by (clear H1; solve [discriminate | congruence | lia | auto]);
+      specialize (H1 Hp); clear Hp
+  end.
+Ltac inst_nat H :=
+  repeat match goal with
+  | x : nat |- _ => let T := type of (H x) in
+                    lazymatch goal with | _ : T |- _ => fail | _ => pose proof (H x) end
+  end;
+  (let T := type of (H 0) in lazymatch goal with | _ : T |- _ => idtac | _ => pose proof (H 0) end).
+Ltac inst_tid H :=
+  repeat match goal with
+  | x : tid |- _ => let T := type of (H x) in
+                    lazymatch goal with | _ : T |- _ => fail | _ => pose proof (H x) end
+  | x : nat |- _ => let T := type of (H (TJ x)) in
+                    lazymatch goal with | _ : T |- _ => fail | _ => pose proof (H (TJ x)) end
+  | x : nat |- _ => let T := type of (H (TC x)) in
+                    lazymatch goal with | _ : T |- _ => fail | _ => pose proof (H (TC x)) end
+  end;
+  (let T := type of (H TJM) in lazymatch goal with | _ : T |- _ => idtac | _ => pose proof (H TJM) end);
+  (let T := type of (H (TC 0)) in lazymatch goal with | _ : T |- _ => idtac | _ => pose proof (H (TC 0)) end).
+Ltac brk := repeat match goal with
+  | H : _ /\ _ |- _ => destruct H
+  | H : exists _, _ |- _ => destruct H
+  | H : _ \/ _ |- _ => destruct H
+  end.
+Ltac tid_inj :=
+  repeat match goal with
+  | H : TJ _ = TJ _ |- _ => injection H as H
+  | H : TC _ = TC _ |- _ => injection H as H
+  | H : TJ ?a <> TJ ?b |- _ => assert (a <> b) by (intro; apply H; congruence); clear H
+  | H : TC ?a <> TC ?b |- _ => assert (a <> b) by (intro; apply H; congruence); clear H
+  | H : ?a = ?a |- _ => clear H
+  end.
+Ltac finish := intros; dupd; tid_inj; subst; rw_phases; fwd; rw_phases; brk; subst; simpl in *;
+  try congruence; try lia; eauto.
+
+Ltac fw2 L := repeat match goal with H : _ |- _ =>
+  let T := type of (L _ _ H) in lazymatch goal with _ : T |- _ => fail | _ => pose proof (L _ _ H) end end.
+Ltac fw1 L := repeat match goal with H : _ |- _ =>
+  let T := type of (L _ H) in lazymatch goal with _ : T |- _ => fail | _ => pose proof (L _ H) end end.
+Ltac gen_held := repeat match goal with E : jp ?s ?t = ?P |- _ =>
+  let h := eval cbn in (held P) in
+  lazymatch h with
+  | Some ?l => lazymatch goal with
+               | _ : held (jp s t) = Some l |- _ => fail
+               | _ => assert (held (jp s t) = Some l) by (rewrite E; reflexivity)
+               end
+  | _ => fail
+  end end.
+Ltac gen_lockof := repeat match goal with E : jp ?s ?t = ?P |- _ =>
+  let h := eval cbn in (lockof P) in
+  lazymatch h with
+  | Some ?l => lazymatch goal with
+               | _ : lockof (jp s t) = Some l |- _ => fail
+               | _ => assert (lockof (jp s t) = Some l) by (rewrite E; reflexivity)
+               end
+  | _ => fail
+  end end.
+
+(* a pool thread that holds L's lock and is about to run L finds it idle *)
+Lemma hold_idle : forall c s u l, Inv c s -> jp s u = JHold l -> inside s = [].
+Proof.
+  intros c s u l HI E.
+  destruct (inside s) as [|t r] eqn:Ei; [reflexivity|exfalso].
+  pose proof (i_1 _ _ HI t) as I1. rewrite Ei in I1. specialize (I1 (or_introl eq_refl)).
+  pose proof (l_a _ _ HI) as La. pose proof (t_1 _ _ HI) as T1.
+  assert (Hu : owner s l = Some u) by (apply La; rewrite E; reflexivity).
+  assert (Tu : tbl s = Some l) by (apply (T1 u); rewrite E; reflexivity).
+  assert (J : forall t', t' = TJM \/ (exists i, t' = TJ i) -> runsb s t' = true -> False).
+  { intros t' Ht' R.
+    assert (exists l', (jp s t' = JRun l' \/ jp s t' = JBad l')) as (l' & Hl').
+    { destruct Ht' as [->|[i ->]]; simpl in R.
+      - destruct (jp s TJM) eqn:Ej; try discriminate; eauto.
+      - destruct (jp s (TJ i)) eqn:Ej; try discriminate; eauto. }
+    assert (held (jp s t') = Some l') by (destruct Hl' as [-> | ->]; reflexivity).
+    assert (lockof (jp s t') = Some l') by (destruct Hl' as [-> | ->]; reflexivity).
+    assert (l' = l) by (pose proof (T1 _ _ H0); congruence). subst l'.
+    assert (t' = u) by (pose proof (La _ _ H); congruence). subst t'.
+    destruct Hl'; congruence. }
+  destruct t; simpl in I1; try discriminate.
+  - apply (J TJM); auto.
+  - destruct (o_3 _ _ HI i) as [N1 N2].
+    + destruct (c_mode c) eqn:Em; try (left; congruence).
+      destruct i; [|right; congruence].
+      pose proof (o_1 _ _ HI Em u). congruence.
+    + destruct (cp s i); try discriminate; congruence.
+  - apply (J (TJ i)); eauto.
+Qed.
+
+Lemma unspawned_c : forall c s i, Inv c s -> cp s i = CPsub -> jp s (TJ i) = JNone.
+Proof.
+  intros c s i HI E. destruct (jp s (TJ i)) eqn:Ej; auto.
+  all: destruct (p_c _ _ HI i) as [H|[H|H]]; congruence.
+Qed.
+Lemma unspawned_m : forall c s, Inv c s -> mp s = M0 -> jp s TJM = JNone.
+Proof. intros c s HI E. apply (p_m _ _ HI). auto. Qed.
+Ltac gen_unspawned HI := repeat match goal with
+  | E : cp ?s ?i = CPsub |- _ =>
+      lazymatch goal with
+      | _ : jp s (TJ i) = JNone |- _ => fail
+      | _ => pose proof (unspawned_c _ _ _ HI E)
+      end
+  | E : mp ?s = M0 |- _ =>
+      lazymatch goal with
+      | _ : jp s TJM = JNone |- _ => fail
+      | _ => pose proof (unspawned_m _ _ HI E)
+      end
+  end.
+
+Lemma own_running : forall c s, Inv c s -> c_mode c = MOwn -> running s = true -> runsb s (TC 0) = true.
+Proof.
+  intros c s HI Em R. unfold running in R. destruct (inside s) as [|t r] eqn:Ei; [discriminate|].
+  pose proof (i_1 _ _ HI t) as I1. rewrite Ei in I1. specialize (I1 (or_introl eq_refl)).
+  destruct t; simpl in I1; try discriminate.
+  - rewrite (o_1 _ _ HI Em) in I1. discriminate.
+  - destruct i; [exact I1|].
+    destruct (o_3 _ _ HI (S i)) as [N1 N2]; [right; congruence|].
+    destruct (cp s (S i)); try discriminate; congruence.
+  - rewrite (o_1 _ _ HI Em) in I1. discriminate.
+Qed.
+
+Lemma others_completed_spec : forall c s i, others_completed c s i = true ->
+  forall k, k < c_n c -> k <> i -> completedb s k = true.
+Proof.
+  intros c s i H k Hk Hn. unfold others_completed in H. rewrite forallb_forall in H.
+  specialize (H k). rewrite in_seq in H. specialize (H ltac:(lia)).
+  apply orb_prop in H as [H|H]; auto. apply Nat.eqb_eq in H. congruence.
+Qed.
+Lemma all_completed_spec : forall c s, all_completed c s = true ->
+  forall k, k < c_n c -> completedb s k = true.
+Proof.
+  intros c s H k Hk. unfold all_completed in H. rewrite forallb_forall in H.
+  apply H. apply in_seq. lia.
+Qed.
+
+Lemma remove_tid_single : forall t, remove_tid t [t] = [].
+Proof. intros t. simpl. now rewrite tid_eqb_refl. Qed.
+
+Ltac fold_runs s :=
+  repeat match goal with
+  | H : context [jp s ?t] |- _ =>
+      lazymatch type of H with
+      | runsb _ _ = true => fail
+      | _ = true => change (runsb s t = true) in H
+      end
+  | H : context [cp s ?i] |- _ =>
+      lazymatch type of H with
+      | runsb _ _ = true => fail
+      | _ = true => change (runsb s (TC i) = true) in H
+      end
+  end.
+(* the acting thread's own phase tells whether it is inside the loop *)
+Ltac gen_runs I2 := repeat match goal with
+  | E : jp ?s ?t = JRun ?l |- _ =>
+      lazymatch goal with
+      | _ : inside s = [t] |- _ => fail
+      | _ => assert (inside s = [t]) by (apply I2; simpl; rewrite E; reflexivity)
+      end
+  | E : jp ?s ?t = JBad ?l |- _ =>
+      lazymatch goal with
+      | _ : inside s = [t] |- _ => fail
+      | _ => assert (inside s = [t]) by (apply I2; simpl; rewrite E; reflexivity)
+      end
+  | E : cp ?s ?i = COwn |- _ =>
+      lazymatch goal with
+      | _ : inside s = [TC i] |- _ => fail
+      | _ => assert (inside s = [TC i]) by (apply I2; simpl; rewrite E; reflexivity)
+      end
+  | E : cp ?s ?i = COwnDone |- _ =>
+      lazymatch goal with
+      | _ : inside s = [TC i] |- _ => fail
+      | _ => assert (inside s = [TC i]) by (apply I2; simpl; rewrite E; reflexivity)
+      end
+  end.
+Ltac gen_idle HI := repeat match goal with
+  | E : jp ?s ?t = JHold ?l |- _ =>
+      lazymatch goal with
+      | _ : inside s = [] |- _ => fail
+      | _ => pose proof (hold_idle _ _ _ _ HI E)
+      end
+  end.
+Ltac mode_guard := repeat match goal with
+  | H : match c_mode ?c with _ => _ end = true |- _ => destruct (c_mode c) eqn:?; try discriminate H
+  end; norm_guards; subst.
+Ltac running_contra := try match goal with
+  | G : running ?s = true, Hi : inside ?s = [] |- _ => unfold running in G; rewrite Hi in G; discriminate G
+  end.
+
+Section Step.
+Variables (c : cfg) (s : state).
+Hypothesis HI : Inv c s.
+
+Lemma s_d_j : forall e s', step c s e = Some s' ->
+  forall t, jp s' t <> JNone -> t = TJM \/ exists i, t = TJ i /\ i < c_n c.
+Proof.
+  intros e s' H. pose proof (d_j _ _ HI) as Dj. inv_step H; simp2.
+  all: try assumption.
+  all: finish.
+Qed.
+
+Lemma s_d_c : forall e s', step c s e = Some s' -> forall i, c_n c <= i -> cp s' i = CInit.
+Proof.
+  intros e s' H. pose proof (d_c _ _ HI) as Dc. inv_step H; simp2.
+  all: try assumption.
+  all: finish; try lia.
+Qed.
+
+Lemma s_p_m : forall e s', step c s e = Some s' -> mp s' = MNone \/ mp s' = M0 -> jp s' TJM = JNone.
+Proof.
+  intros e s' H. pose proof (p_m _ _ HI) as Pm. inv_step H; simp2.
+  all: try assumption.
+  all: finish.
+  all: try (destruct H; congruence).
+Qed.
+
+Lemma s_p_c : forall e s', step c s e = Some s' ->
+  forall i, jp s' (TJ i) <> JNone -> cp s' i = CPwait \/ cp s' i = CGot \/ cp s' i = CDone.
+Proof.
+  intros e s' H. pose proof (p_c _ _ HI) as Pc. inv_step H; simp2.
+  all: try assumption.
+  all: try solve [finish].
+  all: intros; inst_nat Pc; finish.
+Qed.
+
+Lemma s_m_none : forall e s', step c s e = Some s' ->
+  match c_mode c with MForever | MRace => mp s' <> MNone | _ => mp s' = MNone end.
+Proof.
+  intros e s' H. pose proof (m_none _ _ HI) as Mn. inv_step H; simp2.
+  all: try assumption.
+  all: destruct (c_mode c); congruence.
+Qed.
+
+Ltac pose_locks :=
+  pose proof (l_a _ _ HI) as La; pose proof (l_b _ _ HI) as Lb; pose proof (t_1 _ _ HI) as T1;
+  pose proof (t_2 _ _ HI) as T2; pose proof (t_3 _ _ HI) as T3; pose proof (p_m _ _ HI) as Pm;
+  pose proof (p_c _ _ HI) as Pc.
+
+Ltac locks_tac La Lb T1 T3 := intros; dupd; tid_inj; subst; gen_held; gen_lockof; fw2 La; fw2 Lb; fw2 T1; fw1 T3; finish.
+
+Lemma s_l_a : forall e s', step c s e = Some s' ->
+  forall t l, held (jp s' t) = Some l -> owner s' l = Some t.
+Proof.
+  intros e s' H. pose_locks. inv_step H; simp2.
+  all: try assumption.
+  all: try solve [finish].
+  all: locks_tac La Lb T1 T3.
+Qed.
+
+Lemma s_l_b : forall e s', step c s e = Some s' ->
+  forall t l, owner s' l = Some t -> held (jp s' t) = Some l.
+Proof.
+  intros e s' H. pose_locks. inv_step H; simp2.
+  all: try assumption.
+  all: try solve [finish].
+  all: try solve [locks_tac La Lb T1 T3].
+  all: intros; dupd; tid_inj; subst; fw2 Lb; inst_nat Pc;
+    match goal with H : held (jp s ?t) = _ |- _ => destruct (jp s t) eqn:?; finish end.
+Qed.
+
+Lemma s_t_1 : forall e s', step c s e = Some s' ->
+  forall t l, lockof (jp s' t) = Some l -> tbl s' = Some l.
+Proof.
+  intros e s' H. pose_locks. inv_step H; simp2.
+  all: try assumption.
+  all: try solve [finish].
+  all: locks_tac La Lb T1 T3.
+Qed.
+
+Lemma s_t_2 : forall e s', step c s e = Some s' ->
+  match tbl s' with Some l => l = 1 /\ nlocks s' = 1 | None => nlocks s' = 0 end.
+Proof.
+  intros e s' H. pose_locks. inv_step H; simp2.
+  all: try assumption.
+  all: try solve [finish].
+  all: locks_tac La Lb T1 T3.
+Qed.
+
+Lemma s_t_3 : forall e s', step c s e = Some s' -> forall t, jp s' t = JCmk -> tbl s' = None.
+Proof.
+  intros e s' H. pose_locks. inv_step H; simp2.
+  all: try assumption.
+  all: try solve [finish].
+  all: locks_tac La Lb T1 T3.
+  Qed.
+
+Lemma s_i_2 : forall e s', step c s e = Some s' -> forall t, runsb s' t = true -> inside s' = [t].
+Proof.
+  intros e s' H. pose proof (i_1 _ _ HI) as I1. pose proof (i_2 _ _ HI) as I2.
+  inv_step H; simp2.
+  all: try assumption.
+  all: gen_idle HI; running_contra; gen_runs I2; mode_guard.
+  all: intros t Hr; destruct t; unfold runsb in Hr; simp2; try discriminate Hr.
+  all: dupd; tid_inj; subst; fold_runs s; fw1 I2; rw_phases; simpl in *; try discriminate; rewrite ?tid_eqb_refl; try reflexivity.
+  all: try congruence.
+Qed.
+
+Lemma s_i_1 : forall e s', step c s e = Some s' -> forall t, In t (inside s') -> runsb s' t = true.
+Proof.
+  intros e s' H. pose proof (i_1 _ _ HI) as I1. pose proof (i_2 _ _ HI) as I2.
+  inv_step H; simp2.
+  all: try assumption.
+  all: gen_idle HI; running_contra; gen_runs I2; mode_guard.
+  all: gen_unspawned HI.
+  all: intros t Hr; simp2; rw_phases; rewrite ?remove_tid_single in Hr; simpl in Hr; try contradiction.
+  all: try (destruct Hr as [<-|[]]; unfold runsb; simp2; rewrite ?updt_same, ?upd_same; reflexivity).
+  all: try (pose proof (I1 _ Hr) as R; destruct t; unfold runsb in *; simp2; try discriminate R;
+            dupd; tid_inj; subst; rw_phases; simpl in *; congruence).
+Qed.
+
+Lemma s_n_f : forall e s', step c s e = Some s' -> forall t, nofail (jp s' t).
+Proof.
+  intros e s' H. pose proof (n_f _ _ HI) as Nf.
+  inv_step H; simp2.
+  all: try assumption.
+  all: gen_idle HI; running_contra.
+  all: intros t; specialize (Nf t); dupd; tid_inj; subst; rw_phases; simpl in *; auto.
+Qed.
+
+Lemma s_o_3 : forall e s', step c s e = Some s' ->
+  forall i, c_mode c <> MOwn \/ i <> 0 -> cp s' i <> COwn /\ cp s' i <> COwnDone.
+Proof.
+  intros e s' H. pose proof (o_3 _ _ HI) as O3.
+  inv_step H; simp2.
+  all: try assumption.
+  all: mode_guard.
+  all: intros k Hk; specialize (O3 k Hk); dupd; tid_inj; subst; rw_phases; simpl in *; try (split; congruence); auto.
+  all: exfalso; brk; congruence.
+Qed.
+
+Lemma s_o_5 : forall e s', step c s e = Some s' ->
+  c_mode c = MOwn -> forall i, cp s' i <> CPsub /\ cp s' i <> CPwait /\ cp s' i <> CClosedP.
+Proof.
+  intros e s' H Em. pose proof (o_5 _ _ HI Em) as O5. pose proof (o_2 _ _ HI Em) as O2.
+  pose proof (i_2 _ _ HI) as I2.
+  inv_step H; simp2.
+  all: try assumption.
+  all: try (rewrite Em in *; try discriminate).
+  all: norm_guards.
+  all: intros k; pose proof (O5 k); dupd; tid_inj; subst; rw_phases; simpl in *; try (repeat split; congruence); auto.
+  all: exfalso; try (destruct (O5 i) as (?&?&?); congruence).
+  all: assert (R : runsb s (TC 0) = true) by (apply (O2 i); congruence).
+  all: apply I2 in R; unfold running in *; rewrite R in *; discriminate.
+Qed.
+
+Lemma s_o_1 : forall e s', step c s e = Some s' -> c_mode c = MOwn -> forall t, jp s' t = JNone.
+Proof.
+  intros e s' H Em. pose proof (o_1 _ _ HI Em) as O1. pose proof (o_5 _ _ HI Em) as O5.
+  pose proof (m_none _ _ HI) as Mn. rewrite Em in Mn.
+  inv_step H; simp2.
+  all: try assumption.
+  all: try congruence.
+  all: try (pose proof (O1 TJM); congruence).
+  all: try (pose proof (O1 (TJ i)); congruence).
+  all: try (destruct (O5 i) as (?&?&?); congruence).
+Qed.
+
+Lemma s_o_2 : forall e s', step c s e = Some s' -> c_mode c = MOwn ->
+  forall i, i <> 0 -> cp s' i <> CInit -> cp s' i <> CDone -> runsb s' (TC 0) = true.
+Proof.
+  intros e s' H Em. pose proof (o_2 _ _ HI Em) as O2. pose proof (o_1 _ _ HI Em) as O1.
+  pose proof (o_3 _ _ HI) as O3. pose proof (d_c _ _ HI) as Dc.
+  pose proof (i_1 _ _ HI) as I1.
+  inv_step H; simp2.
+  all: try assumption.
+  all: try (pose proof (O1 TJM); congruence).
+  all: try (pose proof (O1 (TJ i)); congruence).
+  all: try (rewrite Em in *; try discriminate).
+  all: norm_guards.
+  all: unfold runsb in *; simp2.
+  all: try (pose proof (own_running _ _ HI Em) as Orun; unfold runsb in Orun).
+  all: intros k K1 K2 K3; pose proof (O2 k K1); dupd; tid_inj; subst; rw_phases; simpl in *; try congruence; auto.
+  all: fwd; try assumption; try congruence.
+  exfalso. destruct (Nat.lt_ge_cases k (c_n c)) as [Hk|Hk]; [|apply K2; auto].
+  pose proof (others_completed_spec _ _ _ G0 k Hk n) as Hc. unfold completedb in Hc.
+  destruct (O3 k) as [N1 N2]; auto.
+  destruct (cp s k); try discriminate; congruence.
+Qed.
+
+Lemma s_c_2 : forall e s', step c s e = Some s' -> forall i, cp s' i = CClosedP -> c_mode c = MClosed.
+Proof.
+  intros e s' H. pose proof (c_2 _ _ HI) as C2.
+  inv_step H; simp2.
+  all: try assumption.
+  all: intros k Hk; pose proof (C2 k); dupd; tid_inj; subst; rw_phases; simpl in *; try congruence; auto.
+Qed.
+
+Lemma s_c_1 : forall e s', step c s e = Some s' -> c_mode c = MClosed ->
+  inside s' = [] /\ (forall t, jp s' t = JNone) /\
+  (forall i, cp s' i = CInit \/ cp s' i = CBegun \/ cp s' i = CClosedP \/ cp s' i = CDone).
+Proof.
+  intros e s' H Em. destruct (c_1 _ _ HI Em) as (C1 & C1j & C1c).
+  pose proof (m_none _ _ HI) as Mn. rewrite Em in Mn.
+  inv_step H; simp2.
+  all: try (split; [|split]; assumption).
+  all: try congruence.
+  all: try (pose proof (C1j TJM); congruence).
+  all: try (pose proof (C1j (TJ i)); congruence).
+  all: try (rewrite Em in *; try discriminate).
+  all: try (destruct (C1c i) as [?|[?|[?|?]]]; congruence).
+  all: norm_guards; unfold running in *; try (rewrite C1 in *; discriminate).
+  all: (split; [|split]; try assumption).
+  all: intros k; pose proof (C1c k); dupd; tid_inj; subst; rw_phases; simpl in *; auto.
+Qed.
+
+Lemma s_r_1 : forall e s', step c s e = Some s' ->
+  forall i, match aw s' i with AwFin => res s' i = Some (expected c i) | _ => res s' i = None end.
+Proof.
+  intros e s' H. pose proof (r_1 _ _ HI) as R1.
+  inv_step H; simp2.
+  all: try assumption.
+  all: intros k; simp2; pose proof (R1 k); dupd; tid_inj; subst; rw_phases; simpl in *; try congruence; auto.
+  all: try (destruct (aw s k); auto; fail).
+  all: match goal with |- context [aw s ?j] => destruct (aw s j); auto end.
+Qed.
+
+Lemma s_r_3 : forall e s', step c s e = Some s' ->
+  forall i, (exists l, jp s' (TJ i) = JPost l false) \/ jp s' (TJ i) = JRel false -> aw s' i = AwFin.
+Proof.
+  intros e s' H. pose proof (r_3 _ _ HI) as R3.
+  inv_step H; simp2.
+  all: try assumption.
+  all: intros k Hk; simp2; pose proof (R3 k); dupd; tid_inj; subst; rw_phases; simpl in *; try congruence; auto.
+  all: fwd; try congruence.
+  all: try (brk; congruence).
+  all: try (destruct Hk as [[? Hk]|Hk]; [discriminate|]; injection Hk as ->; apply H; eauto; fail).
+  all: try (match goal with |- context [aw s ?j] => destruct (aw s j); auto; try congruence end).
+Qed.
+
+Lemma s_r_2 : forall e s', step c s e = Some s' -> forall i, cp s' i = CGot -> cres s' i = Some (expected c i).
+Proof.
+  intros e s' H. pose proof (r_2 _ _ HI) as R2. pose proof (r_1 _ _ HI) as R1. pose proof (r_3 _ _ HI) as R3.
+  pose proof (n_f _ _ HI) as Nf.
+  inv_step H; simp2.
+  all: try assumption.
+  all: intros k Hk; simp2; pose proof (R2 k); pose proof (R1 k); dupd; tid_inj; subst; rw_phases; simpl in *; try congruence; auto.
+  - exfalso. pose proof (Nf (TJ i)) as N. rewrite E in N. exact N.
+  - assert (A : aw s i = AwFin) by (apply R3; auto). rewrite A in H0. exact H0.
+Qed.
+End Step.
+
+Lemma Inv_step : forall c s e s', Inv c s -> step c s e = Some s' -> Inv c s'.
+Proof.
+  intros c s e s' HI H. constructor.
+  - eapply s_d_j; eauto.
+  - eapply s_d_c; eauto.
+  - eapply s_p_m; eauto.
+  - eapply s_p_c; eauto.
+  - eapply s_m_none; eauto.
+  - eapply s_l_a; eauto.
+  - eapply s_l_b; eauto.
+  - eapply s_t_1; eauto.
+  - eapply s_t_2; eauto.
+  - eapply s_t_3; eauto.
+  - eapply s_i_1; eauto.
+  - eapply s_i_2; eauto.
+  - eapply s_n_f; eauto.
+  - eapply s_o_1; eauto.
+  - eapply s_o_2; eauto.
+  - eapply s_o_3; eauto.
+  - eapply s_o_5; eauto.
+  - eapply s_c_1; eauto.
+  - eapply s_c_2; eauto.
+  - eapply s_r_1; eauto.
+  - eapply s_r_2; eauto.
+  - eapply s_r_3; eauto.
+Qed.
+
+Lemma Inv_reach : forall c s, reachable c s -> Inv c s.
+Proof.
+  intros c. apply reach_ind; [apply Inv_init|]. intros s e s' _ HI H. eapply Inv_step; eauto.
+Qed.
